@@ -14,6 +14,7 @@ CHECKS = {
             unit("c15-common", "internal/common", ["zz_verif_c15_test.go"], "^TestVerifC15",
                  shards={"quick": 4, "thorough": 16}),
             unit("c15-root", "root", ["zz_verif_c15_test.go"], "^TestVerifC15", shards={"quick": 4, "thorough": 8}),
+            unit("c20-race-helpers", "internal/common", ["zz_verif_c20_helpers_test.go"], "^TestVerifC20RaceHelpers$", race=True, env={"VERIF_RACE": "1"}),
         ],
         "assumptions": [
             "SHA-256 from the Go standard library is correct (used by implementation and reference alike)",
